@@ -91,6 +91,10 @@ def special_cases():
     out.append(dict(base, n=2, M=1, tol=1e-7, grades=[2], A=K.tojson(np.array([[1., 2.], [0., 1.]])), B=K.tojson(np.array([[0., 1.]])), X0=K.tojson(np.zeros((1, 2)))))
     # singular Galerkin matrix: A = [[0,1],[1,1]], b = e1, m = 1: H_1 = [0]
     out.append(dict(base, n=2, M=1, tol=1e-7, grades=[2], A=K.tojson(np.array([[0., 1.], [1., 1.]])), B=K.tojson(np.array([[1., 0.]])), X0=K.tojson(np.zeros((1, 2)))))
+    # padding mask hits an executed step: H = [[1,0],[.05,.05]], row 1 below 10*tol*max = 0.1 (tol = 1e-2); and the 1x1 witness
+    # of C13_maskExact_clause_needed (tol = 0.2 masks the only row)
+    out.append(dict(base, n=2, M=2, tol=1e-2, grades=[2], A=K.tojson(np.array([[1., 0.], [0.05, 0.05]])), B=K.tojson(np.array([[1., 0.]])), X0=K.tojson(np.zeros((1, 2)))))
+    out.append(dict(base, n=1, M=1, tol=0.2, grades=[1], A=K.tojson(np.array([[2.]])), B=K.tojson(np.array([[1.]])), X0=K.tojson(np.zeros((1, 1)))))
     return out
 
 
